@@ -169,15 +169,22 @@ func RInv(p *parser, top []any) bool {
 //@ func (*parser).reduce
 //@   props C01 C06 C10
 //@   fuel 2 NTok=3
+//@   use Reduce: shape tokens
 //@   requires PInv(p)
 //@   ensures  p.lex == old(p.lex) && p.defaultField == old(p.defaultField)
-//@   ensures  err == nil ==> PInv(p) && len(p.stack) < len(old(p.stack))
+//@   ensures[elems]  err == nil ==> reduce.ElemsOK(p.stack)
+//@   ensures[nts]    err == nil ==> NTsOK(p.nonTerminals)
+//@   ensures[tokens] err == nil ==> len(p.nonTerminals) >= 1 && len(p.nonTerminals) == 1+reduce.NTok(p.stack, len(p.stack))
+//@   ensures[lexer]  p.lex != nil && lex.LexPub(p.lex)
+//@   ensures[shrinks] err == nil ==> len(p.stack) < len(old(p.stack))
 //@   loop 0: invariant RInv(p, top) && p.lex == old(p.lex) && p.defaultField == old(p.defaultField)
 //@   loop 0: invariant len(p.stack)+len(top) <= len(old(p.stack))
 //@   loop 0: decreases len(p.stack)
 //@   lemma pop before "p.stack = p.stack[:len(p.stack)-1]": reduce.LemmaNTokPrefix(p.stack[:len(p.stack)-1], p.stack, len(p.stack)-1)
 //@   lemma prepend before "top = append([]any{s}, top...)": reduce.LemmaNTokConcat(append([]any{s}, top...), []any{s}, top, len(top)); reduce.LemmaNTokBounds(p.stack, len(p.stack))
-//@   lemma push before "p.stack = append(p.stack, top...)": reduce.LemmaNTokConcat(append(p.stack, top...), p.stack, top, len(top))
+//@   lemma push before "p.stack = append(p.stack, top...)": reduce.LemmaNTokConcat(append(p.stack, top...), p.stack, top, len(top)); reduce.LemmaNTokBounds(p.stack, len(p.stack)); reduce.LemmaNTokBounds(top, len(top))
+//@   assert accounting-after-pop before "var reduced bool": len(p.nonTerminals) == 1+reduce.NTok(p.stack, len(p.stack))+reduce.NTok(top, len(top))
+//@   assert accounting-after-rule before "if reduced {": len(p.nonTerminals) == 1+reduce.NTok(p.stack, len(p.stack))+reduce.NTok(top, len(top))
 
 // ---- parse ----------------------------------------------------------------------------------------
 
